@@ -247,4 +247,33 @@ theorem checkMotion2_path (val : Validator) (n : Nat) (v : Nat → Bool) : check
   unfold checkBisectGen
   by_cases h : v n = true <;> simp [h]
 
+/-! ### the constrained validator -/
+
+theorem traverseW_fst (ask : Ask) (v : Nat → Bool) (h : ∀ j w, (ask j w).1 = v j) (m : Nat) (geom : Bool) (w : World) :
+    (traverseW ask m geom w).1 = traverse m geom v := by
+  unfold traverseW traverse
+  rw [linScanW_fst ask v h]
+  cases (linScan v 1 m).2 <;> rfl
+
+theorem traverseGW_fst (ask : Ask) (v : Nat → Bool) (h : ∀ j w, (ask j w).1 = v j) (mode : TMode) (m : Nat)
+    (geom : Bool) (w : World) : (traverseGW ask mode m geom w).1 = traverseG mode m geom v := by
+  cases mode <;> simp only [traverseGW, traverseG, h, traverseW_fst ask v h]
+  · cases v 0 <;> simp
+  · split
+    · rfl
+    · cases v 0 <;> simp
+
+theorem constrained2GW_fst (ask : Ask) (v : Nat → Bool) (h : ∀ j w, (ask j w).1 = v j) (mode : TMode) (sat : Bool)
+    (m : Nat) (geom : Bool) (w : World) :
+    (constrained2GW ask mode sat m geom w).1 = constrained2G mode sat m geom v := by
+  simp only [constrained2GW, constrained2G, h, traverseGW_fst ask v h]
+  cases v (m + 1) <;> cases sat <;> cases (traverseG mode m geom v).1 <;> simp
+
+theorem constrained3GW_fst (ask : Ask) (v : Nat → Bool) (h : ∀ j w, (ask j w).1 = v j) (mode : TMode)
+    (hasFirst sat : Bool) (m : Nat) (geom : Bool) (w : World) :
+    (constrained3GW ask mode hasFirst sat m geom w).1 = constrained3G mode hasFirst sat m geom v := by
+  simp only [constrained3GW, constrained3G, h, traverseGW_fst ask v h]
+  cases (traverseG mode m geom v).2.2.2 <;> cases v (m + 1) <;> cases sat <;>
+    cases (traverseG mode m geom v).1 <;> simp
+
 end OmplModel.Motion
